@@ -360,9 +360,14 @@ func report(e *Engine, prop, tier string, seed int, verif string, results []*Fun
 				return 2
 			}
 			if q.Ob.Class == "canary" {
-				canarySeen[r.Key] = true
+				// per kind of location (returns / each loop body / early cuts): at least one path reaching it must be consistent
+				ck := r.Key + "|" + q.Ob.Detail
+				if verbose {
+					fmt.Fprintf(os.Stderr, "  canary %s path=%d status=%s backend=%s t=%.2fs\n", ck, q.PathID, q.Status, q.Backend, q.Time)
+				}
+				canarySeen[ck] = true
 				if q.Status != "unsat" {
-					canaryOK[r.Key] = true
+					canaryOK[ck] = true
 				}
 				continue
 			}
@@ -407,11 +412,14 @@ func report(e *Engine, prop, tier string, seed int, verif string, results []*Fun
 			failedFunc[o.Func] = true
 		}
 	}
-	for k := range canarySeen {
-		if !canaryOK[k] && !failedFunc[shortKeyOf(k)] && !failedFunc[k] {
-			vacuous = append(vacuous, k+": canary proved on every return path (inconsistent assumptions)")
+	for ck := range canarySeen {
+		k := ck[:strings.Index(ck, "|")]
+		where := ck[strings.Index(ck, "|")+1:]
+		if !canaryOK[ck] && !failedFunc[shortKeyOf(k)] && !failedFunc[k] {
+			vacuous = append(vacuous, k+": canary proved on every path reaching "+where+" (inconsistent assumptions)")
 		}
 	}
+	sort.Strings(vacuous)
 	sort.Strings(order)
 
 	// expected + known findings
@@ -439,6 +447,24 @@ func report(e *Engine, prop, tier string, seed int, verif string, results []*Fun
 		}
 	}
 
+	if update && !partial {
+		var ne Expected
+		for _, n := range order {
+			o := obs[n]
+			if o.Status == "discharged" {
+				ne.Discharged = append(ne.Discharged, n)
+			} else if _, isKnown := known[n]; !isKnown {
+				// only obligations ALREADY recorded as undecided stay so; a new failure is a violation, not a new entry
+				// (set VERIF_ALLOW_UNDECIDED=1 to record one deliberately)
+				if undecided[n] || os.Getenv("VERIF_ALLOW_UNDECIDED") != "" {
+					ne.Undecided = append(ne.Undecided, n)
+				} else {
+					fmt.Fprintf(os.Stderr, "-update refused: %s is not discharged (fix it, or record it deliberately with VERIF_ALLOW_UNDECIDED=1)\n", n)
+					update = false
+				}
+			}
+		}
+	}
 	if update && !partial {
 		var ne Expected
 		for _, n := range order {
